@@ -1,10 +1,13 @@
 """
 C19 — interpolation and bound merging behave as documented for every input shape.
 
-Proof obligations: lean/RtcVerif/Props/C19.lean.  Correspondence: the real
-`OptimizationProblem.interpolate`, `casadi_helpers.interpolate` and `merge_bounds` against the
-Lean models `Interp` / `Merge` through Drivers/C19.lean; independent Python oracle for the
-property itself (failing-input search).
+Proof obligations: lean/RtcVerif/Props/C19.lean + the modules generated from the source on every run
+(Gen/InterpCode.lean, Gen/InterpCols.lean, Gen/MergeCode.lean: `interpolate` incl. its 2-D branch,
+`__interpolate`, `casadi_helpers.interpolate`, the whole of `merge_bounds`, `Timeseries.__init__`).
+Correspondence: the real `OptimizationProblem.interpolate`, `casadi_helpers.interpolate` and `merge_bounds`
+against the Lean models `Interp` / `Merge` and the code-level reference `MergeCode.mergeBoundsRef` (values AND
+int / float result types) through Drivers/C19.lean; independent Python oracle for the property itself
+(failing-input search), incl. associativity of merge_bounds over three bound pairs.
 """
 import bisect
 import itertools
@@ -13,7 +16,7 @@ import math
 import numpy as np
 
 from .common import fr, same, unfr
-from .translate_c19 import gen_interp_code
+from .translate_c19 import gen_interp_code, gen_interp_cols, gen_merge_code
 
 NAN = float("nan")
 INF = float("inf")
@@ -151,11 +154,11 @@ def stream_numeric(c, prob, N):
             cols = [fs] + [[rng.randint(-64, 64) / 16 for _ in ts] for _ in range(ncol - 1)]
             case["cols"] = cols
             if kind == "cols_scalar":
-                # model: one scalar query per column
-                for col in cols:
-                    lines.append(dict(op="interp", mode=mode, ts=[fr(x) for x in ts], fs=[fr(x) for x in col],
-                                      fl=wire_fill(fl), fr=wire_fill(frr), q=[fr(q[0])], scalar=True))
-                case["nlines"] = len(cols)
+                # model: the scalar path applied to every column (interpColumnsScalar)
+                lines.append(dict(op="interp2s", mode=mode, ts=[fr(x) for x in ts],
+                                  cols=[[fr(x) for x in col] for col in cols],
+                                  fl=wire_fill(fl), fr=wire_fill(frr), q=[fr(q[0])]))
+                case["nlines"] = 1
             else:
                 lines.append(dict(op="interp2", mode=mode, ts=[fr(x) for x in ts],
                                   cols=[[fr(x) for x in col] for col in cols],
@@ -249,7 +252,7 @@ def stream_numeric(c, prob, N):
         if kind == "cols":
             model = "raise" if mo[0] == "raise" else mo[0]
         elif kind == "cols_scalar":
-            model = "raise" if any(m == "raise" for m in mo) else [[m] for m in mo]
+            model = "raise" if mo[0] == "raise" else [[m] for m in mo[0]]
         elif kind == "scalar":
             model = "raise" if mo[0] == "raise" else [[mo[0]]]
         else:
@@ -321,13 +324,14 @@ def gen_side(rng, shape):
     iv = lambda: float(rng.randint(-9, 9))  # noqa
     if kind == "sc":
         v = iv() if as_int else ev()
-        return {"k": "sc", "v": fr(v)}, (int(v) if as_int else v)
+        return {"k": "sc", "int": as_int, "v": fr(v)}, (int(v) if as_int else v)
     if kind == "vec1":
         v = iv() if as_int else ev()
-        return {"k": "vec", "v": [fr(v)]}, (np.array([int(v)]) if as_int else np.array([v]))
+        return {"k": "vec", "int": as_int, "v": [fr(v)]}, (np.array([int(v)]) if as_int else np.array([v]))
     if kind == "vec":
         vs = [iv() if as_int else ev() for _ in range(ncomp)]
-        return {"k": "vec", "v": [fr(v) for v in vs]}, (np.array([int(v) for v in vs]) if as_int else np.array(vs))
+        return ({"k": "vec", "int": as_int, "v": [fr(v) for v in vs]},
+                (np.array([int(v) for v in vs]) if as_int else np.array(vs)))
     if kind == "ts":
         vs = [ev() for _ in times]
         return {"k": "ts", "t": [fr(t) for t in times], "v": [fr(v) for v in vs]}, Timeseries(np.array(times), np.array(vs))
@@ -349,6 +353,18 @@ def impl_side_to_wire(v):
     return {"k": "sc", "v": fr(float(v))}
 
 
+def impl_side_to_typed(v):
+    """as impl_side_to_wire, plus the int / float flag of the result (Python int vs float, array dtype)"""
+    w = impl_side_to_wire(v)
+    if isinstance(v, np.ndarray):
+        w["int"] = v.dtype.kind in "iu"
+    elif w["k"] == "sc":
+        w["int"] = isinstance(v, (int, np.integer)) and not isinstance(v, bool)
+    else:
+        w["int"] = False
+    return w
+
+
 def side_at(w, i, j):
     """denotation of a wire side at (time index, component); None where undefined"""
     k = w["k"]
@@ -368,16 +384,22 @@ def stream_merge(c, N):
     from rtctools.optimization.optimization_problem import OptimizationProblem
 
     rng = c.rng
-    cases, lines = [], []
+    cases, lines, case3 = [], [], []
     for i in range(N):
         ncomp = rng.randint(2, 3)
-        nt = rng.randint(2, 4)
+        nt = rng.randint(2, 4) if rng.random() < 0.85 else 1   # one stamp: one-element / one-row values (F35)
         times = [float(x) for x in sorted(rng.sample(range(0, 12), nt))]
         shape = (ncomp, times)
         sides = [gen_side(rng, shape) for _ in range(4)]  # lo1 hi1 lo2 hi2
+        if nt == 1:
+            c.hit("merge/one-time-stamp")
         cases.append((shape, sides))
+        case3.append([gen_side(rng, shape) for _ in range(2)])   # a third pair for the associativity oracle
         lines.append(dict(op="merge", a=[sides[0][0], sides[1][0]], b=[sides[2][0], sides[3][0]]))
         lines.append(dict(op="merge", a=[sides[2][0], sides[3][0]], b=[sides[0][0], sides[1][0]]))
+        # the code-level reference (PyV: with the int / float distinction), both orders
+        lines.append(dict(op="mergecode", a=[sides[0][0], sides[1][0]], b=[sides[2][0], sides[3][0]]))
+        lines.append(dict(op="mergecode", a=[sides[2][0], sides[3][0]], b=[sides[0][0], sides[1][0]]))
     outs = c.model(lines)
     for k, (shape, sides) in enumerate(cases):
         w = [s[0] for s in sides]
@@ -412,15 +434,43 @@ def stream_merge(c, N):
                             bad = (ti, cj, x, y, z)
                 if bad:
                     c.fail("merged %s bound is not the element-wise %s" % (nm, f.__name__), case, bad)
+        # ---- oracle: associativity with the rejection cases (`merge_assoc`): a third pair, both groupings
+        third = case3[k]
+        w3, v3 = [s[0] for s in third], [s[1] for s in third]
+        r23 = call(OptimizationProblem.merge_bounds, (v[2], v[3]), (v3[0], v3[1]))
+        left = r1 if r1[0] == "raise" else call(OptimizationProblem.merge_bounds, r1[1], (v3[0], v3[1]))
+        right = r23 if r23[0] == "raise" else call(OptimizationProblem.merge_bounds, (v[0], v[1]), r23[1])
+        c.hit("merge/assoc-" + ("raise" if left[0] == "raise" else "ok"))
+        acase = dict(stream="merge_bounds associativity", a=[w[0], w[1]], b=[w[2], w[3]], c=w3)
+        if (left[0] == "raise") != (right[0] == "raise"):
+            c.fail("merge_bounds: one grouping of three bound pairs is accepted, the other rejected", acase,
+                   {"(ab)c": left[0], "a(bc)": right[0]})
+        elif left[0] != "raise":
+            il = [impl_side_to_wire(x) for x in left[1]]
+            ir = [impl_side_to_wire(x) for x in right[1]]
+            if not _sides_equal(il, ir):
+                c.fail("merge_bounds is not associative", acase, {"(ab)c": il, "a(bc)": ir})
         # ---- correspondence
         if outs is None:
             continue
-        for (mo, im, what) in ((outs[2 * k], i1, "merge(a,b)"), (outs[2 * k + 1], i2, "merge(b,a)")):
+        for (mo, im, what) in ((outs[4 * k], i1, "merge(a,b)"), (outs[4 * k + 1], i2, "merge(b,a)")):
             if mo == "raise" or im == "raise":
                 if (mo == "raise") != (im == "raise"):
                     c.disagree(what + " raise/value", case, mo, im)
             elif not _sides_equal(mo, im):
                 c.disagree(what, case, mo, im)
+        # code-level reference: values AND result types (Python float vs int, dtype of vectors)
+        t1 = "raise" if r1[0] == "raise" else [impl_side_to_typed(x) for x in r1[1]]
+        t2 = "raise" if r2[0] == "raise" else [impl_side_to_typed(x) for x in r2[1]]
+        for (mo, im, what) in ((outs[4 * k + 2], t1, "merge_bounds code-level (a,b)"),
+                               (outs[4 * k + 3], t2, "merge_bounds code-level (b,a)")):
+            if mo == "raise" or im == "raise":
+                if (mo == "raise") != (im == "raise"):
+                    c.disagree(what + " raise/value", case, mo, im)
+            elif not _sides_equal(mo, im) or [bool(x.get("int")) for x in mo] != [bool(x.get("int")) for x in im]:
+                c.disagree(what + " value / result type", case, mo, im)
+        if r1[0] != "raise":
+            c.hit("merge/result-" + "-".join(("int" if x.get("int") else "float") + x["k"] for x in t1))
 
 
 def _compatible(a, b):
@@ -513,20 +563,36 @@ def run_corpus(c, prob):
         c.fail("merge_bounds((0, 1), (0.5, 2.0))", {"a": [0, 1], "b": [0.5, 2.0]}, r)
 
 
+def generated(c):
+    """source-to-Lean translation on every run: the generated modules and their obligations"""
+    extra = gen_interp_code(c)
+    if extra:
+        extra = extra + gen_interp_cols(c)      # imports Gen/InterpCode.lean
+    else:
+        c.broken.append(("translator: OptimizationProblem.interpolate (2-D branch)",
+                         "not generated: the 1-D paths it calls were not translated"))
+    return extra + gen_merge_code(c)
+
+
 def run(c):
     c.rule = (
         "random knot vectors (1-7 knots, dyadic and decimal), queries on/between/left/right of knots, "
         "scalar/array/early-exit/2-D forms, modes 0-2 (+ invalid), fills NaN/None/finite/inf; symbolic "
-        "interpolant at numeric queries; merge_bounds over all kind pairs incl. incompatible shapes and "
-        "both argument orders; plus the exhaustive small-scope table.  distinct = (stream, kind, mode, "
+        "interpolant at numeric queries; merge_bounds over all kind pairs (int / float scalars, integer- / float-dtype "
+        "vectors, 1-D / 2-D Timeseries, one and several time stamps) incl. incompatible shapes, both argument "
+        "orders and a third pair for associativity; plus the exhaustive small-scope table.  distinct = (stream, kind, mode, "
         "#knots, fill kinds, outcome class) tuples"
     )
     c.assumptions = [
         "NumPy `interp`/`searchsorted`, CasADi `interp1d` evaluate as documented (re-stated in the model, tied by this run)",
         "linear mode compared with 1e-9 relative tolerance (binary64 vs exact rationals); all other observables exactly",
         "NaN-valued bounds are outside the merge model (the code's callers replace them beforehand)",
+        "merge_bounds / Timeseries.__init__ are translated over a typed universe of Python values (int, float, "
+        "integer- / float-dtype 1-D arrays, 1-D / 2-D Timeseries); np.full_like / broadcast_to / maximum / minimum "
+        "are re-stated primitives (tied by the code-level correspondence of this run); the equality with the model "
+        "holds for Timeseries built by __init__ (one-element 1-D values => one time stamp) with >= 1 row in 2-D values",
     ]
-    c.prove(extra=gen_interp_code(c))
+    c.prove(extra=generated(c))
     prob = make_problem()
     run_corpus(c, prob)
     stream_exhaustive(c, prob)
@@ -539,7 +605,7 @@ def run(c):
 
 
 def replay(c, rp):
-    c.prove(extra=gen_interp_code(c))
+    c.prove(extra=generated(c))
     prob = make_problem()
     for f in rp.get("failures", []) + rp.get("correspondence_disagreements", []):
         print("replaying", f["what"], f["case"])
